@@ -667,8 +667,11 @@ def _like(g, a):
         new = numpy.sort(new)       # sorted 1-D operand (searchsorted) stays sorted
         if (numpy.diff(new) <= 0).any():
             new = v[0] + (1 if a.kind == 'i' else .137)
+    # constants stay constants (nutils needs a provable integer range for exponents / selectors: an Argument has none)
     if a.f is None:
         kinds = ('raw',)
+    elif a.leaf == 'const' or (a.kind in 'bi' and a.bounds is not None):
+        kinds = ('const',)
     else:
         kinds = ('const', 'arg')
     return g.fresh(a.kind, shape, values=new, leafkinds=kinds)
@@ -683,7 +686,7 @@ def _sibling_index(g, a, opname):
     v = numpy.asarray(a.vals)
     if v.size:
         lo, hi = min(lo, int(v.min())), max(hi, int(v.max()))
-    if rng.random() < .4 or (lo < 0 <= hi):
+    if rng.random() < .3 or (lo < 0 <= hi):
         for _ in range(3):
             new = rng.integers(lo, hi + 1, size=tuple(a.shape))
             if not (a.uniform and (new == v[0]).all()) or hi == lo:
